@@ -4,6 +4,7 @@ import (
 	"bytes"
 	"fmt"
 	"math/rand"
+	"strings"
 	"sync"
 	"time"
 
@@ -113,6 +114,7 @@ func engineRelayAppend(rng *rand.Rand, n int, tier string, o *Out) {
 		style := rng.Intn(4)
 		ctx, cancel := tchannel.NewContextBuilder(5 * time.Second).SetFormat(tchannel.Thrift).Build()
 		verdict := ""
+		refused := false
 		func() {
 			defer cancel()
 			call, err := client.BeginCall(ctx, rly.PeerInfo().HostPort, "svc", method, &tchannel.CallOptions{Format: tchannel.Thrift})
@@ -153,6 +155,12 @@ func engineRelayAppend(rng *rand.Rand, n int, tier string, o *Out) {
 			}
 			var r2, r3 []byte
 			if err := tchannel.NewArgReader(call.Response().Arg2Reader()).Read(&r2); err != nil {
+				if len(arg2) >= 30000 && len(app) > 0 && strings.Contains(err.Error(), "fragmented arg2 not supported for appends") {
+					// documented refusal: an arg2 that does not end in the first frame cannot be appended to;
+					// nothing was forwarded, so no checksum is at stake (out of C02's domain)
+					refused = true
+					return
+				}
 				verdict = fmt.Sprintf("call through an appending relay failed (arg3 style %d, %d appended pairs): %v", style, len(app), err)
 				return
 			}
@@ -180,6 +188,10 @@ func engineRelayAppend(rng *rand.Rand, n int, tier string, o *Out) {
 				verdict = "response arg3 differs"
 			}
 		}()
+		if refused {
+			o.Hist("append refused: arg2 continues past the first frame")
+			continue
+		}
 		o.Hist(fmt.Sprintf("append=%d style=%d", imin(len(app), 2), style))
 		if c < 2 {
 			o.Sample(map[string]interface{}{"sub": "relayappend", "orig_pairs": len(orig), "appended_pairs": len(app), "arg2": len(arg2), "arg3": len(arg3), "arg3_write_style": style})
